@@ -261,7 +261,7 @@ def generate(rng, tier="quick"):
     return {"property": PROPERTY, "fs": fs, "schema_path": spath, "instances": [] if use_stdin else instances,
             "stdin": use_stdin, "output": output, "error_format": error_format, "validator": validator,
             "base_uri": base_uri, "netdocs": netdocs, "draft": draft,
-            "realfs": realfs, "mkdirs": ["defs"] if cwd_base else [], "argv_style": rng.choice([0, 0, 1, 2, 3]),
+            "stdin_tty": bool(use_stdin and rng.random() < 0.25), "realfs": realfs, "mkdirs": ["defs"] if cwd_base else [], "argv_style": rng.choice([0, 0, 1, 2, 3]),
             "crosscheck": bool(tier == "thorough" and rng.random() < 0.01)}
 
 
@@ -407,6 +407,14 @@ def execute(scn):
         cli.open = sim_open
     out, err = io.StringIO(), io.StringIO()
     stdin = textfile(scn["fs"]["<stdin>"]) if scn["stdin"] else io.StringIO("")
+    if scn["stdin"] and scn.get("stdin_tty"):
+        # the instance is typed / pasted at a terminal and ended with EOF: same bytes, but the stream says isatty()
+        class _Tty(io.TextIOWrapper):
+            def isatty(self):
+                return True
+        ent_ = scn["fs"]["<stdin>"]
+        stdin = _Tty(io.BufferedReader(io.BytesIO(unb64(ent_["bytes"]))), encoding="utf-8")
+        probe("stdin_is_a_terminal")
     argv = argv_of(scn)
     status = None
     escaped = None
